@@ -105,6 +105,12 @@ class AofCheck(PropertyCheck):
                 if not peek().startswith("L "):
                     sp.bad = "expected the log bytes, got %r" % peek(); break
                 i += 2
+            elif k == "RWK":
+                # a REWRITEAOF that dies at a failpoint: no write, the reply is the death
+                after_open = False
+                if not peek().startswith("R "):
+                    sp.bad = "expected a reply, got %r" % peek(); break
+                i += 1
             elif k == "RWC":
                 f = line.split()
                 after_open = False
